@@ -15,13 +15,45 @@ class Disconnection:
     if not self.is_connected():
       raise gfapy.RuntimeError(
         "Line {} is not connected to a GFA instance".format(self))
+    # the dependent lines (and their dependent lines, and so on) are
+    # disconnected using an explicit stack: chains of dependent lines
+    # (e.g. groups of groups) can be longer than the recursion limit
+    stack = [self._disconnection_steps()]
+    while stack:
+      try:
+        dependent = next(stack[-1])
+      except StopIteration:
+        stack.pop()
+        continue
+      # note: a dependent line may have been already disconnected by the
+      #       disconnection of another dependent line (e.g. a group of a group)
+      if dependent.is_connected():
+        stack.append(dependent._disconnection_steps())
+
+  def _disconnection_steps(self):
+    """Disconnect the line; the dependent lines, which must be disconnected
+    in the middle of the procedure, are yielded to the caller."""
     self._remove_field_backreferences()
     self._remove_field_references()
-    self._disconnect_dependent_lines()
+    for k in self.__class__.DEPENDENT_LINES:
+      for ref in list(self._refs.get(k, [])):
+        for dependent in self._dependent_lines_in(ref):
+          yield dependent
     self._remove_nonfield_backreferences()
     self._remove_nonfield_references()
     self._gfa._unregister_line(self)
     self._gfa = None
+
+  def _dependent_lines_in(self, ref):
+    if isinstance(ref, gfapy.Line):
+      yield ref
+    elif isinstance(ref, gfapy.OrientedLine):
+      if isinstance(ref.line, gfapy.Line):
+        yield ref.line
+    elif isinstance(ref, list):
+      for elem in ref:
+        for dependent in self._dependent_lines_in(elem):
+          yield dependent
 
   def _delete_reference(self, line, key):
     if key not in self._refs: return
@@ -80,19 +112,6 @@ class Disconnection:
       for i in range(len(ref)):
        self._remove_backreference(ref[i], k)
 
-  def _disconnect_dependent_line(self, ref):
-    # note: a dependent line may have been already disconnected by the
-    #       disconnection of another dependent line (e.g. a group of a group)
-    if isinstance(ref, gfapy.Line):
-      if ref.is_connected():
-        ref.disconnect()
-    elif isinstance(ref, gfapy.OrientedLine):
-      if isinstance(ref.line, gfapy.Line) and ref.line.is_connected():
-        ref.line.disconnect()
-    elif isinstance(ref, list):
-      for i in range(len(ref)):
-        self._disconnect_dependent_line(ref[i])
-
   def _remove_field_backreferences(self):
     """
     .. note::
@@ -104,11 +123,6 @@ class Disconnection:
     """
     for k in self.__class__.REFERENCE_FIELDS:
       self._remove_backreference(self.get(k), k)
-
-  def _disconnect_dependent_lines(self):
-    for k in self.__class__.DEPENDENT_LINES:
-      for ref in list(self._refs.get(k, [])):
-        self._disconnect_dependent_line(ref)
 
   def _remove_nonfield_backreferences(self):
     for k in self.__class__.OTHER_REFERENCES:
